@@ -99,8 +99,7 @@ def run_cases(ctx, cases, chunksize=None):
     """Execute all cases on a process pool; returns list of traces (same order)."""
     if not cases:
         return []
-    with multiprocessing.get_context("fork").Pool(ctx.workers) as pool:
-        res = pool.map(execute, cases, chunksize=chunksize or max(1, len(cases) // (ctx.workers * 8)))
+    res = ctx.pool().map(execute, cases, chunksize=chunksize or max(1, min(50, len(cases) // (ctx.workers * 4))))
     traces = []
     for case, (tr, err) in zip(cases, res):
         if err is not None:
